@@ -930,3 +930,50 @@ Example C09_a64_load_example :
      sget s' A64MemLoadChain.ex_sp 10 = Some 55 /\ rget s' TEMPORARY_TEMP = Some 777.
 Proof. exact a64_load_example. Qed.
 Print Assumptions C09_a64_load_example.
+
+(* the memory part of `substitute` on AArch64 (Proof/A64MemSubstOps.v; the shape of C09_x86_substitute_memory): the code
+   `code_weakening_contraction` emits for the transposed map tm refines exactly the operation list the instrumented machine
+   performs for the substitution; `hb lo hi` keeps the counts from wrapping and every tested header a 64-bit value *)
+From SCC Require Import Proof.A64MemSubstOps.
+Theorem C09_a64_substitute_memory :
+  forall im (ptr : binding -> Z) context F sp tm lc cs lc' pos s f,
+    code_weakening_contraction a64_backend tm context lc = Ok (cs, lc') ->
+    code_at im pos cs -> labels_at im pos cs -> frame_ok s sp -> rget s FREE = Some f ->
+    (forall b targets t, In (b, targets) tm -> bchi b <> AxSyn.Ext ->
+       variable_temporary a64_backend Fst context (idn (bvar b)) = Ok t ->
+       lget s sp t = Some (ptr b) /\ (ptr b = 0 \/ is_blk (ptr b))) ->
+    let acts := A64MemSubstOps.tm_acts ptr context tm in
+    A64MemSubstOps.hb (A64MemSubstOps.n_erase acts) (A64MemSubstOps.n_share acts) s f ->
+    A64MemSubstOps.n_share acts <= 2 ^ 31 - 1 -> A64MemSubstOps.n_erase acts <= 2 ^ 31 - 1 ->
+    let ops := flat_map (fun bt : binding * list N => rc_op (bchi (fst bt)) (ptr (fst bt)) (length (snd bt))) tm in
+    exists s', exec_to im pos s (padd pos (length cs)) s' /\
+      st_eqB (abs_heap F s') (hrun ops (abs_heap F s)) /\
+      sbtf s s' /\ frame_ok s' sp /\
+      rget s' FREE = Some (Heap.free (hrun ops (abs_heap F s))).
+Proof. exact a64_weakening_contraction_ok. Qed.
+Print Assumptions C09_a64_substitute_memory.
+
+(* THE TWO SEEDED DEFECTS, put into the model, refute the statements above on concrete states (Proof/A64MemDefects.v, by
+   evaluation of the ISA model).  (1) acquire_block into a spill slot with `STR XZR, [HEAP]` for `STR XZR, [TEMP]`: from a state
+   whose reuse list has two blocks the real code clears the header of the acquired block (as Heap.acquire demands), the
+   defective code leaves the free-list link there - the abstraction of its final state is NOT Heap.acquire of the first. *)
+From SCC Require Import Proof.A64MemDefects.
+Theorem C09_a64_seeded_defect1_refuted :
+  let a := abs_heap (HEAP_BASE + 128) d1_state in
+  fst (Heap.acquire a) = HEAP_BASE /\ Heap.hdr (Heap.m (snd (Heap.acquire a)) HEAP_BASE) = 0 /\
+  (exists s', final_state (fst (acquire_block (AS 1) 0)) d1_state = Some s' /\
+              sget s' d1_sp 1 = Some HEAP_BASE /\ hword s' HEAP_BASE = 0 /\ rget s' HEAP = Some (HEAP_BASE + 64)) /\
+  (exists s', final_state (fst (acquire_block_bad (AS 1) 0)) d1_state = Some s' /\
+              sget s' d1_sp 1 = Some HEAP_BASE /\ hword s' HEAP_BASE = HEAP_BASE + 64 /\
+              ~ st_eqB (abs_heap (HEAP_BASE + 128) s') (snd (Heap.acquire a))).
+Proof. exact defect1_refutes_acquire_spill. Qed.
+Print Assumptions C09_a64_seeded_defect1_refuted.
+(* (2) `register_freed` carried over from the Release to the Share call of load_fields: loading the shared two-block object of
+   C09_a64_load_example behind 13 variables, the real code restores X10 = `tpos 6` (a live variable of `existing`), the
+   defective code does not - the conjunct "temporaries below 2 * |existing| unchanged" of C09_a64_load fails for it *)
+Theorem C09_a64_seeded_defect2_refuted :
+  lget ex13_state A64MemLoadChain.ex_sp (tpos 6) = Some 777 /\ (6 < 2 * N.of_nat (length ex13_existing))%N /\
+  (exists s', final_state ex13_code ex13_state = Some s' /\ lget s' A64MemLoadChain.ex_sp (tpos 6) = Some 777) /\
+  (exists s', final_state ex13_code_bad ex13_state = Some s' /\ lget s' A64MemLoadChain.ex_sp (tpos 6) <> Some 777).
+Proof. exact defect2_refutes_load. Qed.
+Print Assumptions C09_a64_seeded_defect2_refuted.
